@@ -56,7 +56,19 @@ func genC11h(t *rapid.T) c11hCase {
 		case "setup":
 			drawIMSI(&op, l)
 		case "identity":
-			if rapid.Bool().Draw(t, l+"home") {
+			if rapid.IntRange(0, 4).Draw(t, l+"samedigits") == 0 {
+				// the same digit string as an earlier IMSI of the history, split the other way: MCC/MNC2/MSIN and
+				// MCC/MNC3/MSIN' are different subscribers of different networks with identical digits
+				p := c.Ops[rapid.IntRange(0, len(c.Ops)-1).Draw(t, l+"samedigits_of")]
+				switch {
+				case len(p.MNC) == 2 && len(p.MSIN) >= 2:
+					op.MCC, op.MNC, op.MSIN = p.MCC, p.MNC+p.MSIN[:1], p.MSIN[1:]
+				case len(p.MNC) == 3 && len(p.MSIN) <= 9:
+					op.MCC, op.MNC, op.MSIN = p.MCC, p.MNC[:2], p.MNC[2:]+p.MSIN
+				default:
+					drawIMSI(&op, l)
+				}
+			} else if rapid.Bool().Draw(t, l+"home") {
 				// a subscriber of the announced PLMN (the common case): same MCC/MNC as the latest setup
 				for j := len(c.Ops) - 1; j >= 0; j-- {
 					if c.Ops[j].Kind == "setup" {
